@@ -59,18 +59,18 @@ type selectPark struct {
 }
 
 type scheduler struct {
-	i       *interpreter
-	gs      []*gor
-	cur     *gor
-	fatal   interface{} // engine-level outcome raised in a non-main goroutine
-	dying   bool
-	points  int
-	maxPts  int
+	i      *interpreter
+	gs     []*gor
+	cur    *gor
+	fatal  interface{} // engine-level outcome raised in a non-main goroutine
+	dying  bool
+	points int
+	maxPts int
 	// preemption bound: a switch away from a goroutine that could have
 	// continued counts as a preemption; switches at blocking points are free
 	preempt    int
 	maxPreempt int
-	mutexes map[*value]*vmutex
+	mutexes    map[*value]*vmutex
 }
 
 type vmutex struct {
